@@ -168,6 +168,37 @@ func init() {
 		ex.setResult(f, call, isDefer, zeroResults(fn))
 		return nil, true
 	})
+	// ---- sort.Slice / sort.SliceStable: the sorting algorithms are interpreted from SSA; only the
+	// reflection helpers they use to find the length and to swap two elements are modelled ----
+	reg("internal/reflectlite.ValueOf", func(ex *Exec, st *State, th *Thread, f *Frame, fn *ssa.Function, args []Value, call *ssa.Call, isDefer bool) ([]*State, bool) {
+		ex.rep.Stubs["internal/reflectlite.ValueOf/Len/Swapper (slice length and element swap)"] = true
+		ex.setResult(f, call, isDefer, args[0])
+		return nil, true
+	})
+	reg("(internal/reflectlite.Value).Len", func(ex *Exec, st *State, th *Thread, f *Frame, fn *ssa.Function, args []Value, call *ssa.Call, isDefer bool) ([]*State, bool) {
+		iv, _ := args[0].(*Iface)
+		if iv == nil {
+			unsupported("reflectlite.Value.Len of a non-slice")
+		}
+		sl, ok := iv.V.(Slice)
+		if !ok {
+			unsupported("reflectlite.Value.Len of a non-slice")
+		}
+		ex.setResult(f, call, isDefer, BVC(64, uint64(sl.Len)))
+		return nil, true
+	})
+	reg("internal/reflectlite.Swapper", func(ex *Exec, st *State, th *Thread, f *Frame, fn *ssa.Function, args []Value, call *ssa.Call, isDefer bool) ([]*State, bool) {
+		iv, _ := args[0].(*Iface)
+		if iv == nil {
+			unsupported("reflectlite.Swapper of a non-slice")
+		}
+		sl, ok := iv.V.(Slice)
+		if !ok {
+			unsupported("reflectlite.Swapper of a non-slice")
+		}
+		ex.setResult(f, call, isDefer, &Closure{Native: "swapper", Recv: sl})
+		return nil, true
+	})
 	// ---- verifrt primitives ----
 	reg(modPath+"/verifrt.intOf", func(ex *Exec, st *State, th *Thread, f *Frame, fn *ssa.Function, args []Value, call *ssa.Call, isDefer bool) ([]*State, bool) {
 		iv, _ := args[0].(*Iface)
